@@ -99,8 +99,10 @@ def gen_query(rng, evs):
     else:
         pool = [t for e in evs for t in e[4]] * 3 + [[rng.choice(TAGNAMES), rng.choice(TAGVALS + ["\ud800", "é"])]]
         matches = [rng.choice(pool) for _ in range(k)]
-    if rng.random() < 0.7 and index != "created_at":
-        matches = sorted(matches, reverse=True, key=repr) if rng.random() < 0.5 else matches
+    if rng.random() < 0.85 and index != "created_at":
+        # what every caller does (sort_fields / planner): deduplicate and sort descending
+        matches = [list(m) if isinstance(m, tuple) else m
+                   for m in sorted({tuple(m) if isinstance(m, list) else m for m in matches}, reverse=True)]
     since = rng.choice([None, None, None, None, 0, 99, 100, 101, 150, 200, 201, 300])
     until = rng.choice([None, None, None, None, 0, 99, 100, 101, 150, 200, 201, 300, 4294967295])
     return index, matches, since, until
@@ -123,13 +125,14 @@ def suite_scan(tier, seed):
         for _ in range(per):
             index, matches, since, until = gen_query(rng, evs)
             events = None
-            if rng.random() < 0.15 and allids:
+            if rng.random() < 0.15 and allids and index != "created_at":
                 events = rng.sample(allids, rng.randint(1, len(allids)))
             impls.append(impl_scan(env, index, matches, since, until, events))
             cases.append({"keys": keys, "index": index, "matches": matches, "since": since, "until": until, "events": events,
                           "_n": len(allids)})
     outs = model_batch("kvm.scan", [{k: v for k, v in c.items() if k != "_n"} for c in cases], pid="KVM")
-    for c, mo, io in zip(cases, outs, impls):
+    specs = model_batch("kvm.scanspec", [{k: v for k, v in c.items() if k != "_n"} for c in cases], pid="KVM")
+    for c, mo, io, sp in zip(cases, outs, impls, specs):
         nt = io["res"] == "ok" and 0 < len(io["ids"]) < c["_n"]
         brief = {k: c[k] for k in ("index", "matches", "since", "until", "events")}
         brief["n_keys"] = len(c["keys"])
@@ -139,7 +142,35 @@ def suite_scan(tier, seed):
         s.count("answers_%s" % ("0" if not io["ids"] else ("1" if len(io["ids"]) == 1 else "n")))
         if mo != io:
             s.disagree(dict(brief, keys=c["keys"]), mo, io)
+        # executable statement at scanner level: exactly the entries of the requested blocks inside [since, until]
+        degenerate = c["index"] != "created_at" and sp["res"] == "ok" and not sp["ids"] and not _any_key(c)
+        canon = [tuple(m) if isinstance(m, list) else m for m in c["matches"]]
+        sorted_desc = all(a > b for a, b in zip(canon, canon[1:]))
+        if sorted_desc and not degenerate and (sp["res"], sorted(sp["ids"])) != (io["res"], sorted(io["ids"])):
+            s.violate(scan_class(c, sp, io), dict(brief, keys=c["keys"]), "Index.scanner does not yield exactly the requested index entries",
+                      expected=sorted(sp["ids"]), observed=sorted(io["ids"]))
     return s
+
+
+def _any_key(c):
+    """does at least one match value convert to a key (otherwise the scanner falls into its range branch)"""
+    from nostr_relay.storage import kv
+    for m in c["matches"]:
+        try:
+            kv.INDEXES[c["index"]].to_key(tuple(m) if isinstance(m, list) else m)
+            return True
+        except ValueError:
+            pass
+        except OverflowError:
+            return True
+    return c["index"] == "created_at"
+
+
+def scan_class(c, sp, io):
+    missing = len(set(sp["ids"]) - set(io["ids"]))
+    extra = len(io["ids"]) - len(set(io["ids"]) & set(sp["ids"]))
+    return "scan:%s:%s%s%s" % (c["index"], "since" if c["since"] is not None else "", "until" if c["until"] is not None else "",
+                                 ":missing" if missing else (":extra" if extra else ":dup"))
 
 
 def suite_multi(tier, seed):
